@@ -5,6 +5,7 @@ import (
 	"crypto/aes"
 	"crypto/cipher"
 	"fmt"
+	"strings"
 
 	kit "github.com/dapr/kit/crypto"
 	"github.com/dapr/kit/crypto/aescbcaead"
@@ -196,16 +197,18 @@ type cond struct{ name, msg string }
 // sentinel where one is defined, and no output.
 func judgeFaulty(present, demanded cryptoref.Fault, o res) []cond {
 	cs := judgeFaulty0(present, demanded, o)
-	for i := range cs {
+	out := cs[:0]
+	for _, c := range cs {
 		// an entry point that does not know a listed algorithm at all answers
-		// ErrUnsupportedAlgorithm whatever else is wrong: that is the one
-		// defect "listed but unsupported", not a sentinel mix-up per fault
-		if present&cryptoref.FaultAlg == 0 && errName(o.err) == "ErrUnsupportedAlgorithm" && len(cs[i].name) > 14 && cs[i].name[:14] == "wrong-sentinel" {
-			cs[i].name = "listed-but-unsupported"
-			cs[i].msg = "the package lists the algorithm as supported, the call returns ErrUnsupportedAlgorithm (inputs: wrong " + present.String() + ")"
+		// ErrUnsupportedAlgorithm whatever else is wrong with the inputs: that
+		// is the one defect "listed but unsupported", which the cases with
+		// valid inputs report; it is not a sentinel mix-up per fault
+		if present&cryptoref.FaultAlg == 0 && errName(o.err) == "ErrUnsupportedAlgorithm" && strings.HasPrefix(c.name, "wrong-sentinel") {
+			continue
 		}
+		out = append(out, c)
 	}
-	return cs
+	return out
 }
 
 func judgeFaulty0(present, demanded cryptoref.Fault, o res) []cond {
